@@ -1,0 +1,25 @@
+//go:build verif
+
+package common
+
+// VerifEnabled reports whether the verification hooks are compiled in.
+const VerifEnabled = true
+
+// VerifSchedHook, when set by a verification harness, is called just before
+// a lock acquisition (phase "before") and just after the matching release
+// (phase "after") of the instrumented objects.
+var VerifSchedHook func(obj any, op string, phase string)
+
+// VerifSched fires the "before" phase and returns the function that fires
+// the "after" phase. It is meant to be used as the first statement of a
+// locking method: `defer VerifSched(m, "Op")()`.
+func VerifSched(obj any, op string) func() {
+	h := VerifSchedHook
+	if h == nil {
+		return func() {}
+	}
+
+	h(obj, op, "before")
+
+	return func() { h(obj, op, "after") }
+}
